@@ -77,6 +77,14 @@ def compare(ref, alt, family):
     return bad
 
 
+def low_voltage_solution(ref, alt):
+    """the alternative converged to ANOTHER valid solution of the power flow equations (the non-physical
+    low-voltage branch): some bus below 0.5 p.u. that is above 0.8 p.u. in the reference."""
+    a, b = np.abs(ref["V"]), np.abs(alt["V"])
+    m = ~(np.isnan(a) | np.isnan(b))
+    return bool(((b[m] < 0.5) & (a[m] > 0.8)).any())
+
+
 def run_alt(net, c):
     """run one alternative configuration on net (which already holds default NR results when init=results).
     returns (outcome, message)"""
@@ -139,6 +147,7 @@ def topo_facts(net):
         "min_nonref": min(nonref) if nonref else None,
         "n_pv": int((bus[:, 1] == 2).sum()),
         "shift": bool((branch[:, 9].real != 0).any()),
+        "asym_branch": bool((branch[:, [21, 22, 24, 25]] != 0).any()),   # BR_R_ASYM, BR_X_ASYM, BR_G_ASYM, BR_B_ASYM
     }
 
 
@@ -155,6 +164,10 @@ def topo_tokens(f):
         toks.append("pv_bus")
     if f["shift"]:
         toks.append("phase_shift")
+    if f["asym_branch"]:
+        toks.append("asym_branch")
+    if f["n_ref"] >= 2:
+        toks.append("n_ref>=2")
     return toks
 
 
@@ -167,15 +180,17 @@ def explain_bfsw_error(f, exc, msg):
     * branches are keyed by their (from, to) pair, so a second branch between the same two buses never gets a
       loop column -> the loop block N of the DLF matrix is singular -> LinAlgError;
     * loop columns are numbered `nobus + loop_i` with loop_i restarting in every island and the Kron reduction
-      splits at nobus-1 instead of nobus-n_ref -> with loops in >= 2 islands the blocks are mis-sized."""
+      splits the DLF matrix at nobus-1 instead of nobus-n_ref -> with >= 2 slacks and a loop anywhere the blocks
+      are mis-sized (LinAlgError: singular N, or ValueError: matmul dimension mismatch)."""
     out = []
     if exc == "ValueError" and not f["ref_leading"] and f["min_nonref"] is not None and \
             msg.startswith("negative axis 1 index: %d" % (f["min_nonref"] - f["n_ref"])):
         out.append("explained=bfsw_ref_not_leading")
     if exc == "LinAlgError" and f["parallel_branch"] and f["ref_leading"]:
         out.append("explained=bfsw_parallel_branch")
-    if f["n_meshed_islands"] >= 2 and f["ref_leading"] and not f["parallel_branch"]:
-        out.append("explained=bfsw_loops_in_several_islands")
+    if exc in ("LinAlgError", "ValueError") and f["n_ref"] >= 2 and f["n_meshed_islands"] >= 1 and f["ref_leading"] \
+            and not f["parallel_branch"] and (exc == "LinAlgError" or msg.startswith("matmul: dimension mismatch")):
+        out.append("explained=bfsw_loops_with_several_slacks")
     return out
 
 
